@@ -77,6 +77,76 @@ static void inject_after(Conn *c, int dir, int idx)
 	}
 }
 
+/* ---- byzantine sender: a correctly protected record with illegal content (C11) ---- */
+int tls13_gcm_encrypt(const BLOCK_CIPHER_KEY *key, const uint8_t iv[12], const uint8_t seq_num[8], int record_type,
+	const uint8_t *in, size_t inlen, size_t padding_len, uint8_t *out, size_t *outlen);
+
+static int evil_seq(Conn *c, int dir, int idx, uint8_t seq[8])
+{
+	/* sequence number the sender used for record idx: protected records of this direction before it */
+	Pipe *p = &c->pipe[dir];
+	uint64_t n = 0;
+	for (int i = 0; i < idx && i < p->nrecs && i < MAX_REC; i++) if (!p->recs[i].in_hs) n++;
+	if (g_mp->proto != P_TLS13) n += 1;           /* Finished was record 0 under these keys */
+	for (int i = 0; i < 8; i++) seq[7 - i] = (uint8_t)(n >> (8 * i));
+	return 1;
+}
+
+static size_t evil_build(Conn *c, int dir, int idx, int variant, const uint8_t *rec, size_t len, uint8_t *out, size_t cap)
+{
+	TLS_CONNECT *sc = g_ep[dir == DIR_C2S ? 0 : 1].conn;
+	uint8_t seq[8];
+	Rng r;
+	rng_seed(&r, (uint64_t)variant * 77 + (uint64_t)idx, 0xe71);
+	if (!sc || len < 5 || cap < 20000) return 0;
+	evil_seq(c, dir, idx, seq);
+	if (g_mp->proto == P_TLS13) {
+		const BLOCK_CIPHER_KEY *key = dir == DIR_C2S ? &sc->client_write_key : &sc->server_write_key;
+		const uint8_t *iv = dir == DIR_C2S ? sc->client_write_iv : sc->server_write_iv;
+		static uint8_t zeros[16384];
+		static const size_t zl[] = { 0, 1, 255, 4096 };
+		size_t olen = 0, n;
+		int type = 0;
+		const uint8_t *in = zeros;
+		switch (variant % 4) {
+		case 0: case 1: n = zl[rng_below(&r, 4)]; type = 0; break;          /* inner plaintext all zeros */
+		case 2: n = 32; type = 99; in = rec + 5; break;                      /* unknown inner content type */
+		default: n = 16384; type = 0; break;                                 /* maximum-size record of zeros */
+		}
+		/* (a well-formed record of another content type is authentic traffic of a peer that chose
+		 * to send it; what the receiver does next is not stated by C11, so it is not generated) */
+		if (in != zeros && n > len - 5) n = len - 5;
+		if (tls13_gcm_encrypt(key, iv, seq, type, in, n, variant % 4 == 1 ? 7 : 0, out + 5, &olen) != 1) return 0;
+		out[0] = TLS_record_application_data; out[1] = 3; out[2] = 3; out[3] = (uint8_t)(olen >> 8); out[4] = (uint8_t)olen;
+		return 5 + olen;
+	}
+	/* SM4-CBC + SM3-HMAC: plaintext = data || MAC || padding with a deliberate defect */
+	const SM3_HMAC_CTX *mac_ctx = dir == DIR_C2S ? &sc->client_write_mac_ctx : &sc->server_write_mac_ctx;
+	const SM4_KEY *ek = dir == DIR_C2S ? &sc->client_write_enc_key : &sc->server_write_enc_key;
+	uint8_t data[64], pt[160], iv[16], hdr[5] = { TLS_record_application_data, rec[1], rec[2], 0, 0 };
+	size_t dl = 20, n = 0;
+	payload_fill(dir, 0, data, dl);
+	rng_bytes(&r, iv, 16);
+	if (variant % 3 == 2) {
+		/* the whole plaintext is padding: no room for data or MAC */
+		memset(pt, 47, 48); n = 48;
+	} else {
+		SM3_HMAC_CTX h = *mac_ctx;
+		hdr[3] = 0; hdr[4] = (uint8_t)dl;
+		sm3_hmac_update(&h, seq, 8); sm3_hmac_update(&h, hdr, 5); sm3_hmac_update(&h, data, dl);
+		memcpy(pt, data, dl); sm3_hmac_finish(&h, pt + dl); n = dl + 32;          /* 52 bytes */
+		size_t padlen = 27;                                                      /* 52 + 28 = 80 = 5 blocks */
+		if (variant % 3 == 0) memset(pt + n, 0xff, padlen + 1);                   /* length byte larger than the record */
+		else { memset(pt + n, (int)padlen, padlen + 1); pt[n] ^= 1; pt[n + 5] ^= 0x80; }   /* MAC fine, padding bytes inconsistent */
+		n += padlen + 1;
+	}
+	memcpy(out + 5, iv, 16);
+	sm4_cbc_encrypt_blocks(ek, iv, pt, n / 16, out + 5 + 16);
+	size_t body = 16 + n;
+	out[0] = TLS_record_application_data; out[1] = rec[1]; out[2] = rec[2]; out[3] = (uint8_t)(body >> 8); out[4] = (uint8_t)body;
+	return 5 + body;
+}
+
 static void mitm_on_record(Conn *c, int dir, int idx, const uint8_t *rec_in, size_t len)
 {
 	static uint8_t rec[TLS_MAX_RECORD_SIZE + 1024];
@@ -118,7 +188,12 @@ static void mitm_on_record(Conn *c, int dir, int idx, const uint8_t *rec_in, siz
 		case F_CRASH:
 			if (f->off >= 0 && (size_t)f->off < len) { fire(i, c, dir); len = (size_t)f->off; crash = 1; }
 			break;
-		case F_MUT: case F_EVIL:
+		case F_EVIL: {
+			static uint8_t ev[TLS_MAX_RECORD_SIZE + 4096];
+			size_t n = evil_build(c, dir, idx, (int)f->a, rec, len, ev, sizeof(ev));
+			if (n && n <= sizeof(rec)) { fire(i, c, dir); memcpy(rec, ev, n); len = n; }
+			break; }
+		case F_MUT:
 			if (g_mitm_byz) g_mitm_byz(c, dir, idx, f, &g_frt[i], rec, &len, sizeof(rec));
 			break;
 		default: break;
@@ -415,11 +490,12 @@ static void gen_fault_data(Fault *f, Rng *g, const HonestOut *o, int proto)
 	int n = collect(o, 0, 1, c, 2 * MAX_REC);
 	memset(f, 0, sizeof(*f));
 	if (!n) return;
-	static const int w[] = { 0, 52, 7, 9, 7, 7, 8, 6, 4, 0, 0, 0 };
+	static const int w[] = { 0, 48, 7, 8, 6, 6, 7, 5, 4, 0, 9, 0 };
 	int kind = pick_weighted(g, w, F_NKINDS);
 	Cand *t = &c[rng_below(g, (uint32_t)n)];
 	f->kind = kind; f->dir = t->dir; f->rec = t->rec;
 	size_t len = t->len;
+	if (kind == F_EVIL) f->a = rng_below(g, 12);
 	switch (kind) {
 	case F_FLIP: {
 		/* stratified over regions of the protected record */
@@ -501,6 +577,10 @@ static void mitm_data_gen(Plan *p, uint64_t base_seed, uint64_t variant, int tie
 
 static const char *region_data(const Fault *f, size_t reclen, int proto)
 {
+	if (f->kind == F_EVIL) {
+		if (proto == P_TLS13) return (const char *[]){ "inner_all_zero", "inner_all_zero_padded", "inner_type_unknown", "inner_all_zero_16384" }[f->a % 4];
+		return (const char *[]){ "padlen_exceeds_record", "padding_inconsistent", "all_padding" }[f->a % 3];
+	}
 	if (f->kind != F_FLIP) return "-";
 	if (f->off == 0) return "hdr_type";
 	if (f->off < 3) return "hdr_version";
@@ -567,6 +647,7 @@ static void mitm_data_run(const Plan *p, RunResult *r)
 		if (f->kind == F_FLIP) demand = !(p->proto == P_TLS13 && f->off < 3);
 		else if (f->kind == F_TRUNC) demand = 1;
 		else if (f->kind == F_EXTEND) demand = f->bit != 0;
+		else if (f->kind == F_EVIL) demand = 1;
 		if (!demand) continue;
 		/* plaintext offset at which the targeted record starts */
 		int64_t start = -1;
